@@ -222,9 +222,15 @@ func refCorpus(e *Env, corpusPath, outPath string, reverse bool) ([][2]string, e
 func refOne(e *Env, api int, in string) (string, error) {
 	ctx, cancel := context.WithTimeout(context.Background(), 60*time.Second)
 	defer cancel()
-	cmd := exec.CommandContext(ctx, e.Refeval, "one", fmt.Sprint(api), common.B64(in))
+	// the input travels on stdin: one argv string is limited to 128 KiB
+	cmd := exec.CommandContext(ctx, e.Refeval, "one", fmt.Sprint(api), "-")
+	cmd.Stdin = strings.NewReader(common.B64(in))
 	out, err := cmd.Output()
 	if err != nil {
+		if _, died := err.(*exec.ExitError); !died && ctx.Err() == nil {
+			// the process could not even be started: never a verdict about the input
+			harnessFail("reference evaluator could not be run: %v", err)
+		}
 		return "", err
 	}
 	return common.UnB64(strings.TrimSpace(string(out)))
